@@ -27,6 +27,8 @@ class C13:
         cov["samples"] = [{"component": "proxy", "events": c.meta["events"], "first_event": pc.event_text(c, 0)[:5]} for c in cases[len(corpus):len(corpus) + 2]]
         cov["corpus_cases"] = len(corpus)
         cov["exhaustive"] = False
+        # Route sets that name the proxy more than once: exactly ONE own entry is consumed per pass, the request comes back
+        pc.explore_sp(ctx, "C13", cov, failures)
         return {"coverage": cov, "failures": failures}
 
     def opts(self, rng, i):
